@@ -220,6 +220,23 @@ func c07Exec(input sx.S) (obs sx.S) {
 	execNastyStrings = true
 	defer func() { execNastyStrings = false }()
 	defer withMaxDepth(secs)()
+	garble := 0
+	if s := section(secs, "garble"); len(s) > 0 {
+		garble = sx.Int(s[0])
+	}
+	execUnbind = -1
+	if garble > 0 && garble%4 == 2 {
+		// no damaged bytes: the first member of the union is bound to no Go type, a value of the union
+		// cannot be told apart (the request is answered with an error for every such value)
+		for _, t := range section(secs, "schema") {
+			if sx.Head(t) == "union" {
+				if ms := sx.List(sx.List(t)[2])[1:]; len(ms) > 0 {
+					execUnbind = sx.Int(ms[0])
+				}
+			}
+		}
+	}
+	defer func() { execUnbind = -1 }()
 	root, w, fail := execSetup(secs)
 	if fail != nil {
 		return fail
@@ -238,10 +255,6 @@ func c07Exec(input sx.S) (obs sx.S) {
 	if s := section(secs, "lseed"); len(s) > 0 {
 		lseed = int64(sx.Int(s[0]))
 	}
-	garble := 0
-	if s := section(secs, "garble"); len(s) > 0 {
-		garble = sx.Int(s[0])
-	}
 	if garble > 0 && garble%4 == 0 {
 		// structural damage instead of damaged bytes: the whole document twice (every operation and
 		// fragment defined again: the refusal is located at a token of the second copy)
@@ -259,7 +272,7 @@ func c07Exec(input sx.S) (obs sx.S) {
 		style := sx.Int(st)
 		r := rand.New(rand.NewSource(lseed*31 + int64(style)))
 		text, pos := c07Layout(toks, style, r)
-		if garble > 0 && garble%4 != 0 { // a malformed request: bytes removed, doubled or replaced
+		if garble > 0 && garble%4 != 0 && execUnbind < 0 { // a malformed request: bytes removed, doubled or replaced
 			g := rand.New(rand.NewSource(int64(garble)))
 			if locs := c07NumRe.FindAllStringIndex(text, -1); garble%4 == 1 && len(locs) > 0 {
 				// a number that is made of number characters only and is no number, where a value stands
@@ -413,7 +426,11 @@ func c07Response(er *execRun, res map[string]interface{}, text string, toks []c0
 				}
 				// the message with its positions blanked, for comparing layouts
 				blank := c07PosRe.ReplaceAllString(msg, "L:C")
-				errs = append(errs, sx.L("e", ce[1], ce[2], ce[3], sx.L("env", sx.A(msgOK), sx.A(pathOK), sx.A(locOK), sx.Hex(raw)), sx.Hex(tok+"|"+blank)))
+				var locFlag sx.S = sx.A(locOK)
+				if !locOK && strings.Contains(msg, "failed to determine union member") {
+					locFlag = "u" // located at the member type's definition in the schema text
+				}
+				errs = append(errs, sx.L("e", ce[1], ce[2], ce[3], sx.L("env", sx.A(msgOK), sx.A(pathOK), locFlag, sx.Hex(raw)), sx.Hex(tok+"|"+blank)))
 			}
 		}
 	}
